@@ -28,6 +28,8 @@ import Pandora.Proofs.C03Start
 import Pandora.Bridge.C03Start
 import Pandora.Proofs.C03Comp
 import Pandora.Bridge.C03Comp
+import Pandora.Proofs.C03Pool
+import Pandora.Bridge.C03Pool
 
 namespace Pandora.Props.C03
 open Pandora.Model.C03 Pandora.Proofs.C03
@@ -461,6 +463,59 @@ theorem C03_source_start (answers : List Bool) (firstOk : Bool) :
 
 end Start
 
+/-! ### "the pool ends normally": `(*instancePool).Run` returns nil (`Pandora.Model.C03Pool`) -/
+
+section Pool
+open Pandora.Model.C03Start Pandora.Proofs.C03Start Pandora.Model.C03Await Pandora.Proofs.C03Await
+open Pandora.Model.C03Pool Pandora.Proofs.C03Pool
+
+/-- **when does a pool end normally**: for every answer of the environment (warm-up fails or not, `runAsync` fails or not, the
+caller's context is done first or not) and every sequence of results the bookkeeping receives, `(*instancePool).Run` returns
+nil EXACTLY when nothing failed before the start, the caller did not cancel, the loop of `awaitRun` is over and it never
+called `onErrAwaited` (no provider / aggregator / start / instance error that is not the cancellation of its context) — the
+first thing that happens on the channel `awaitErr` is its `close`, which the await goroutine performs only after
+`awaitRun()` has returned.  Whenever `Run` returns its own context is cancelled on the way out -/
+theorem C03_pool_run_nil (e : PEnv) (rs : List Res) :
+    ((outcome e rs).ret = some .nil ↔
+      e.warmErr = false ∧ e.asyncErr = false ∧ e.ctxFirst = false ∧
+      ∃ s, arun ainit rs = some s ∧ s.errs = 0 ∧ s.over = true) ∧
+    (outcome e rs).bad = false ∧ (outcome e rs).cancelDeferred = true ∧
+    (outcome e rs).waitDoneByRun = (if (outcome e rs).awaiting then 0 else 1) :=
+  ⟨outcome_nil_iff e rs, outcome_cancel e rs⟩
+
+/-- **a pool that ends normally has seen every started instance leave `Run`**: instances started by `startInstances` (any
+answers of the startup schedule), results in any order (the start result carries what `startInstances` returned, at most
+one run result per launched goroutine).  If `(*instancePool).Run` returns nil then the run results awaited equal the
+goroutines launched = the instances started — every started instance's `Run` has returned, the `terminal` state of the
+accounting theorems (`C03_total`, `C03_release`, `C03_unfired_*`, `C03_metrics`) —, no error was reported and the run context
+was cancelled exactly once -/
+theorem C03_pool_nil_all_returned (e : PEnv) (answers : List Bool) (firstOk : Bool) (rs : List Res)
+    (hstart : ∀ r ∈ rs, r.chan = .start → r.started = (starter answers firstOk).started)
+    (hruns : cnt .run rs ≤ (starter answers firstOk).launched.length)
+    (hnil : (outcome e rs).ret = some .nil) :
+    ∃ s, arun ainit rs = some s ∧ s.errs = 0 ∧
+      s.awaited = (starter answers firstOk).launched.length ∧ s.awaited = (starter answers firstOk).started ∧
+      cnt .run rs = (starter answers firstOk).started ∧ s.runCancels = 1 := by
+  obtain ⟨_, _, _, s, hs, he, ho⟩ := (outcome_nil_iff e rs).mp hnil
+  have h := C03_pool_over_all_returned answers firstOk rs s hs hstart hruns ho
+  exact ⟨s, hs, he, h.1, h.2.1, h.2.2.1, h.2.2.2⟩
+
+/-- `(*instancePool).Run`, the goroutine of `awaitRunAsync`, the channel between them and the registry's "get the config"
+function REGENERATED from the current source: executing the regenerated statements of `Run` (with the regenerated decisions
+of its select cases) against what the regenerated goroutine does on `awaitErr` is the model's `outcome`, for every
+environment and every sequence of results; `onErrAwaited` sends the error on `awaitErr` and gives up only when the pool's
+context is done (a receive sees buffered values before the `close`, so the buffer size does not matter); the plugin registry decodes a fresh config at every call of the factory -/
+theorem C03_source_pool (e : PEnv) (rs : List Res) :
+    exec Pandora.Gen.InstLoop.poolRunOnAwait Pandora.Gen.InstLoop.poolRunCtxCase e
+      (goroutine rs Pandora.Gen.InstLoop.poolAwaitGoBody Pandora.Gen.InstLoop.poolAwaitGoDeferred)
+      Pandora.Gen.InstLoop.poolRun {} = outcome e rs ∧
+    Pandora.Gen.InstLoop.poolOnErrSelect = ["recv $.poolCtx.Done()", "send $.awaitErr"] ∧
+    Pandora.Gen.InstLoop.registryGetConf = [["return v0.defaultConfig.Get(v1)"]] :=
+  ⟨Pandora.Bridge.C03Pool.run_eq e rs, Pandora.Bridge.C03Pool.on_err_select,
+   Pandora.Bridge.C03Pool.registry_get_conf⟩
+
+end Pool
+
 /-! ### the pool over a COMPOSITE profile, at the granularity of the composite's lock sections (`Pandora.Model.C03Comp`) -/
 
 section Comp
@@ -698,5 +753,25 @@ example : ∃ s, Pandora.Model.C03Comp.crun ⟨false, 1, none, false, 1⟩ [0, 1
 
 -- `C03_source_composite`: `NewComposite` over the parts [2, 0, 3]
 example : Pandora.Model.C03Comp.mkLeftAfter [2, 0, 3] = [3, 3, 0] ∧ Pandora.Model.C03Comp.tot [2, 0, 3] = 5 := by decide
+
+-- `C03_pool_run_nil` / `C03_pool_nil_all_returned`: two instances, results around the start result, nothing fails: nil
+example : (Pandora.Model.C03Pool.outcome {}
+    [{ chan := .run }, { chan := .start, started := 2 }, { chan := .provider }, { chan := .run }, { chan := .aggregator }]).ret
+    = some .nil := by decide
+
+-- … the aggregator fails (not the cancellation of the run context): `Run` returns that error, not nil, although the loop
+-- of `awaitRun` gets over too
+example : (Pandora.Model.C03Pool.outcome {}
+    [{ chan := .run }, { chan := .start, started := 1 }, { chan := .provider }, { chan := .aggregator, badRun := true }]).ret
+    = some .awaitErr := by decide
+
+-- … a run result is missing (an instance never returns): `Run` does not return
+example : (Pandora.Model.C03Pool.outcome {}
+    [{ chan := .start, started := 2 }, { chan := .provider }, { chan := .run }, { chan := .aggregator }]).ret = none := by decide
+
+-- falsifiability: a goroutine that closes `awaitErr` BEFORE `awaitRun()` lets `Run` return nil with nothing awaited
+example : (Pandora.Model.C03Pool.exec Pandora.Model.C03Pool.onAwait .ctxErr {}
+    (Pandora.Model.C03Pool.goroutine [] [.closeAwaitErr, .awaitRun] [.waitDone]) Pandora.Model.C03Pool.poolRun {}).ret
+    = some .nil := by decide
 
 end Pandora.Props.C03
